@@ -278,11 +278,21 @@ def run(tier, replay=None):
         runs = res.payloads.get('RUN', [])
         if not runs:
             raise vlib.MachineryError('Tokenizer emitted nothing')
-        if q and len(runs) > 60000:
-            runs = [r for r in runs if len(r['text']) <= maxtext - 1] + rnd.sample([r for r in runs if len(r['text']) == maxtext], 40000)
-        traces = [t for r in vlib.parallel_map(_replay_batch, [(tid + i, b, buf, short) for i, b in zip(range(0, len(runs), 2000), vlib.chunked(runs, 2000))]) for t in r]
-        tid += len(runs)
-        validate(chk, traces, label)
+        cap = 60000 if q else 400000
+        if len(runs) > cap:
+            # the model is explored completely; of the longest texts a seeded sample is replayed into the real reader
+            longest = [r for r in runs if len(r['text']) == maxtext]
+            rest = [r for r in runs if len(r['text']) <= maxtext - 1]
+            runs = rest + rnd.sample(longest, min(len(longest), max(40000, cap - len(rest)) if not q else 40000))
+        res.payloads.clear()
+        # replayed and validated in slices (the thorough model runs emit millions of (text, schedule) pairs)
+        for off in range(0, len(runs), 100000):
+            part = runs[off:off + 100000]
+            traces = [t for r in vlib.parallel_map(_replay_batch, [(tid + i, b, buf, short) for i, b in zip(range(0, len(part), 2000), vlib.chunked(part, 2000))]) for t in r]
+            tid += len(part)
+            validate(chk, traces, label if len(runs) <= 100000 else '%s [%d..]' % (label, off))
+            del traces
+        del runs
     # liveness: the iteration terminates on every finite input under every chunking (weak fairness on the step)
     cfg = ('SPECIFICATION FairSpec\nCONSTANTS Alphabet = {126, 42, 10, 32, 65}\n MaxText = %d\n Buf = 2\n Short = TRUE\n EmitAll = FALSE\nPROPERTY Terminates\n' % (4 if q else 5))
     res = vlib.tlc_must_pass(run_tlc('Tokenizer', cfg, timeout=3000, workers=8), 'Tokenizer termination')
